@@ -58,6 +58,9 @@ pub fn parse_frac(s: &str) -> f64 {
     if s == "inf" {
         return f64::INFINITY;
     }
+    if s == "-inf" {
+        return f64::NEG_INFINITY;
+    }
     let (neg, s) = match s.strip_prefix('-') {
         Some(r) => (true, r),
         None => (false, s),
